@@ -300,7 +300,7 @@ def sym_index(c, kind, name, extent, tensor_len=None):
 
 @case("C11", clause="getitem", functions=[F("__getitem__"), f"{MOD}._normalize_index", f"{MOD}._normalize_slice", F("__init__"),
                                            f"{MVN}.__init__"],
-      expand=getitem_cases, replay=lambda *a: replay_getitem(*a), timeout=240, max_paths=3000)
+      expand=getitem_cases, replay=lambda *a: replay_getitem(*a), timeout=600, max_paths=3000)
 def getitem(c, interleaved, batch_rank, kinds):
     n, t, bs = sizes(c, batch_rank)
     d = make_mtmvn(c, "d", bs, n, t, interleaved)
